@@ -110,7 +110,7 @@ type wsWorker struct {
 
 func newWSWorker(col *collector) *wsWorker {
 	w := &wsWorker{col: col, states: map[string]*connState{}}
-	srv := newServer(limitCfgs[0])
+	srv := newModernServer(limitCfgs[0])
 	w.ts = httptest.NewUnstartedServer(http.HandlerFunc(func(rw http.ResponseWriter, r *http.Request) {
 		w.mu.Lock()
 		st := w.states[r.Header.Get("X-Verif-Conn")]
